@@ -1157,6 +1157,20 @@ def i_check(it, args, kw):
     it.ex.check(c if isinstance(c, bool) else c.t, label)
 
 
+def i_lemma(it, args, kw):
+    """An obligation that, once emitted (and discharged like any other), is also available as a
+    fact to what follows on this path: the cut rule.  If it does not hold it is reported under its
+    own label, so using it afterwards hides nothing."""
+    i_check(it, args, kw)
+    c = args[0]
+    if isinstance(c, SBool):
+        it.ex.assume(c.t)
+    elif not isinstance(c, bool) and not it.truth(c):
+        raise PathAbort("lemma")
+    elif c is False:
+        raise PathAbort("lemma")
+
+
 def i_cover(it, args, kw):
     it.ex.cover(args[0])
 
@@ -1309,7 +1323,7 @@ INTRINSICS = {
     "ghost": (lambda it, args, kw: it.ex.ghosts.setdefault(args[0], [])),
     "is_concrete": (lambda it, args, kw: not is_symbolic(args[0])),
     "sym_int": i_sym_int, "sym_bool": i_sym_bool, "sym_str": i_sym_str, "sym_float": i_sym_float,
-    "sym_choice": i_sym_choice, "assume": i_assume, "check": i_check, "cover": i_cover,
+    "sym_choice": i_sym_choice, "assume": i_assume, "check": i_check, "lemma": i_lemma, "cover": i_cover,
     "outcome": i_outcome, "And": i_And, "Or": i_Or, "Not": i_Not, "Implies": i_Implies,
     "Ite": i_Ite, "same_float": i_same_float, "is_none": i_is_none, "opaque": i_opaque,
     "note": i_note,
